@@ -1,2 +1,66 @@
-(* C09 — placeholder until the theorems are in place (see DESIGN.md). *)
-From Rend Require Import base.Bytes.
+(* C09 — TTL fidelity (direct handlers). Statements only; proofs in orca/OrcaProofs.v.
+   The chunked handler's per-entry deadlines are in props/C04.v / handlers/Chunked*.v. *)
+From Rend Require Import base.Bytes gen.Consts_gen spec.MapSpec orca.Types handlers.Std orca.Orcas
+  proto.Resp orca.OrcaSpec orca.OrcaProofs.
+Open Scope N_scope.
+
+(* the TTL rule: 0 never, up to 30 days relative to the command, above that absolute *)
+Theorem c09_norm_rule : forall now ttl,
+  norm now ttl = if ttl =? 0 then Never else if ttl <=? 2592000 then At (now + ttl) else At ttl.
+Proof. exact norm_rule. Qed.
+Print Assumptions c09_norm_rule.
+
+(* the reference map applies the rule at set/add/replace/touch/gat and leaves the deadline
+   alone at append/prepend/get: what each command does to the deadline of its key *)
+Theorem c09_spec_deadlines : forall s now c,
+  let s' := fst (spec_step s now c) in
+  match c with
+  | CSet m k d f ttl => forall e', live now s' k = Some e' -> snd (spec_step s now c) = OOk -> e_dl e' = norm now ttl
+  | CTouch k ttl | CGat k ttl => forall e', live now s' k = Some e' -> live now s k <> None -> e_dl e' = norm now ttl
+  | CCat _ k _ => forall e e', live now s k = Some e -> live now s' k = Some e' -> e_dl e' = e_dl e
+  | CGet _ | CDelete _ => forall k e', live now s' k = Some e' -> live now s k = Some e'
+  end.
+Proof. exact spec_deadlines. Qed.
+Print Assumptions c09_spec_deadlines.
+
+(* in every state reachable by a history (any ports, evictions, configurations) every tier
+   that can serve a key holds it with exactly the deadline of the reference map.
+   [ttl_sane] bounds the absolute expiry times the requests carry; [deadlines_sane] is the same
+   bound on what L2 already holds when the history starts (true of an empty L2): without it an
+   initial L2 entry expiring later than twice the clock is back-filled with a shorter life. *)
+Theorem c09_ttl : forall p lck h l1 l2,
+  hist_ok p true lck h -> Forall ttl_sane h ->
+  (forall now, sub_live now l1 l2) -> (forall now, same_deadlines now l1 l2) ->
+  deadlines_sane (hd 0 (map h_now h)) l2 ->
+  let '(_, l1', l2') := run_hist true lck h l1 l2 in
+  let '(_, s') := ref_hist h l2 in
+  forall now, last (map h_now h) 0 <= now ->
+    store_eq l2' s' /\
+    (forall k e1, live now l1' k = Some e1 -> exists e0, live now s' k = Some e0 /\ e_dl e1 = e_dl e0).
+Proof. exact ttl_fidelity. Qed.
+Print Assumptions c09_ttl.
+
+(* a get that re-populates L1 from L2 gives the copy L2's deadline (remaining <= 30 days) ... *)
+Theorem c09_backfill_deadline : forall now t, now < t -> t - now <= 2592000 ->
+  norm now (remaining now (At t)) = At t.
+Proof. exact backfill_deadline. Qed.
+(* ... a never-expiring item stays never-expiring ... *)
+Theorem c09_backfill_never : forall now, norm now (remaining now Never) = Never.
+Proof. exact backfill_never. Qed.
+(* ... and above 30 days the remaining TTL is read as an absolute time: the copy is dead on
+   arrival when that time is not in the future, and short-lived otherwise (finding, DESIGN.md §8-16) *)
+Theorem c09_backfill_over_30d_refuted : exists now t,
+  now < t /\ norm now (remaining now (At t)) <> At t.
+Proof. exact backfill_over_30d_refuted. Qed.
+
+(* served iff not expired: the reference get hits exactly while now < deadline *)
+Theorem c09_served_iff : forall s now k e, s k = Some e ->
+  (b_get s now k = Some e <-> match e_dl e with Never => True | At t => now < t end).
+Proof. exact served_iff. Qed.
+Print Assumptions c09_served_iff.
+
+Example c09_nonvacuous :
+  let h := [mkH PMain 1000 [] (RSet MSet [1] [2] 0 50 0 false); mkH PBatch 1001 [[1]] (RGat [1] 900 3);
+            mkH PMain 1002 [[1]] (RGet [mkGI [1] 1 false] 0 false)] in
+  hist_ok Bin true false h /\ Forall ttl_sane h.
+Proof. exact c09_example. Qed.
